@@ -8,6 +8,7 @@ from .. import asmgen
 
 ISA = "aarch64"
 LEVEL = "exploration"
+NEEDS_MODELS = False
 RULE = (
     "random instruction ASTs in AArch64 operand order (0-4 written operands; memory operand, condition code or label only as "
     "last operand; immediates never first): scalar x/w/b/h/s/d/q registers, xzr/wzr, sp, vector registers with arrangement "
